@@ -89,7 +89,49 @@ func reps(g *oracle.G) map[string]graph.Graph {
 	for i := range comp {
 		comp[i] = v1[v2[i]]
 	}
+	// graphs that have an edit history: g with an extra isolated vertex in the middle, removed again
+	mid := g.N / 2
+	withExtra := oracle.New(g.N + 1)
+	for _, e := range g.Edges() {
+		a, b := e[0], e[1]
+		if a >= mid {
+			a++
+		}
+		if b >= mid {
+			b++
+		}
+		withExtra.Add(a, b)
+	}
+	sparseEdited := sparseOf(withExtra)
+	sparseEdited.RemoveVertex(mid)
+	denseEdited := denseOf(withExtra)
+	denseEdited.RemoveVertex(mid)
+	// a small view of a much larger host: every vertex of g gets 9 private pendant vertices plus 8n+8 common
+	// neighbours, original vertex i sits at host label 3i+1 so that host neighbour lists interleave members and
+	// non-members of the view
+	hostN := 3*g.N + 2 + 8*g.N + 8
+	host := oracle.New(hostN)
+	at := func(i int) int { return 3*i + 1 }
+	view := make([]int, g.N)
+	for i := range view {
+		view[i] = at(i)
+	}
+	for _, e := range g.Edges() {
+		host.Add(at(e[0]), at(e[1]))
+	}
+	for i := 0; i < g.N; i++ {
+		for x := 0; x < hostN; x++ {
+			if x%3 != 1 || x >= 3*g.N+2 { // not a view vertex
+				if (x+i)%3 == 0 || x >= 3*g.N+2 { // view vertices i = 2 mod 3 have no host neighbour between consecutive view labels
+					host.Add(at(i), x)
+				}
+			}
+		}
+	}
 	return map[string]graph.Graph{
+		"sparse-edited":    sparseEdited,
+		"dense-edited":     denseEdited,
+		"induced-bighost":  graph.InducedSubgraph(sparseOf(host), view),
 		"induced-reversed": graph.InducedSubgraph(sparseOf(g.Induced(invPerm(rev))), rev),
 		"induced-nested":   graph.InducedSubgraph(graph.InducedSubgraph(denseOf(g.Induced(invPerm(comp))), v1), v2),
 		"dense-bytes":      nonUnit,
@@ -101,7 +143,7 @@ func reps(g *oracle.G) map[string]graph.Graph {
 	}
 }
 
-var repNames = []string{"dense", "sparse", "cocomp", "comp-dense", "induced", "dense-bytes", "induced-reversed", "induced-nested"}
+var repNames = []string{"dense", "sparse", "cocomp", "comp-dense", "induced", "dense-bytes", "induced-reversed", "induced-nested", "sparse-edited", "dense-edited", "induced-bighost"}
 
 // wellFormed checks the observers of any graph.Graph against each other and returns the graph read through IsEdge.
 func wellFormed(what string, gr graph.Graph) (*oracle.G, error) {
